@@ -5,7 +5,8 @@ models take as parameters: global state, unsafe impls, the phase order of end_of
 the queue on which each primitive pushes its closures."""
 import os, re, sys
 
-REPO_SRC = "/repo/src"
+REPO_ROOT = os.environ.get("VERIF_REPO") or "/repo"
+REPO_SRC = REPO_ROOT + "/src"
 OUT = os.path.join(os.path.dirname(os.path.dirname(os.path.abspath(__file__))), "lean", "SodiumVerif", "Gen", "Facts.lean")
 
 
@@ -73,7 +74,7 @@ def main():
     for root, _, fs in os.walk(REPO_SRC):
         for f in sorted(fs):
             if f.endswith(".rs"):
-                p = os.path.join(root, f); rel = os.path.relpath(p, "/repo")
+                p = os.path.join(root, f); rel = os.path.relpath(p, REPO_ROOT)
                 if rel.startswith("src/tests") or rel == "src/verif.rs": continue
                 files[rel] = strip(open(p).read())
     statics, unsafes = [], []
